@@ -373,13 +373,11 @@ UFCMP = {"lt": np.less, "le": np.less_equal, "eq": np.equal, "ne": np.not_equal,
          "ge": np.greater_equal, "gt": np.greater}
 
 
-def run_cmp(rc):
-    p = phase_operand(make_phase(rc["ph"]))
-    o = make_other(rc["ot"])
+def cmp_events(p, o, op, ord_, form):
     # the operator form reflects `other < phase` into phase.__gt__(other); the ufunc form
     # np.less(other, phase) reaches Phase.__array_ufunc__ with the phase as SECOND operand
-    fn = UFCMP[rc["op"]] if rc.get("form") == "ufunc" else CMPOPS[rc["op"]]
-    ops = [p, o] if rc.get("ord", "po") == "po" else [o, p]
+    fn = UFCMP[op] if form == "ufunc" else CMPOPS[op]
+    ops = [p, o] if ord_ == "po" else [o, p]
     shape = np.broadcast_shapes(p.shape, o.shape)
     exc = None
     try:
@@ -391,7 +389,7 @@ def run_cmp(rc):
         exc = e.name
     evs = []
     for j, idx in enumerate(_idx(shape)):
-        ev = {"ev": "cmp", "op": rc["op"], "ord": rc.get("ord", "po"), "other": o.kind,
+        ev = {"ev": "cmp", "op": op, "ord": ord_, "other": o.kind,
               "l": ops[0].x(shape, idx), "r": ops[1].x(shape, idx)}
         if exc is not None:
             ev["exc"] = exc
@@ -399,6 +397,11 @@ def run_cmp(rc):
             ev["res"] = bool(rr[j])
         evs.append(ev)
     return evs
+
+
+def run_cmp(rc):
+    return cmp_events(phase_operand(make_phase(rc["ph"])), make_other(rc["ot"]), rc["op"], rc.get("ord", "po"),
+                      rc.get("form"))
 
 
 def _lanes(a, axis):
@@ -409,28 +412,41 @@ def _lanes(a, axis):
     return np.moveaxis(a, axis, -1).reshape(-1, a.shape[axis])
 
 
-def run_red(rc):
-    """rc = {"fn", "form": method|numpy, "ph": array phase, "axis": None|int}"""
+def _expected_shape(fn, shape, axis):
+    """NumPy's convention for the result of a reduction / sort along axis"""
+    shape = tuple(shape)
+    if fn in ("sort", "argsort"):
+        return (int(np.prod(shape, dtype=int)),) if axis is None else shape
+    if axis is None:
+        return ()
+    ax = axis % len(shape)
+    return shape[:ax] + shape[ax + 1:]
+
+
+def red_events(p, fn, form, axis, axpos=False):
+    """One event per lane of the reduction fn of the phase array p *as it is
+    now*.  form: method | numpy; axpos: the axis is passed positionally."""
     u, Angle, Phase = lib()
-    p = make_phase(rc["ph"])
-    fn, axis = rc["fn"], rc.get("axis")
     v = p.view(np.ndarray)
-    li, lf = _lanes(v["int"], axis), _lanes(v["frac"], axis)
-    exc = None
+    li, lf = _lanes(np.array(v["int"]), axis), _lanes(np.array(v["frac"]), axis)
+    exc, r = None, None
     try:
-        if rc["form"] == "method":
-            r = real(getattr(p, fn), axis=axis)
-        else:
-            r = real(getattr(np, fn), p, axis=axis)
+        f = getattr(p, fn) if form == "method" else getattr(np, fn)
+        args = () if form == "method" else (p,)
+        r = real(f, *args, axis) if axpos else real(f, *args, axis=axis)
     except RealCodeRaised as e:
         exc = e.name
+    badshape = exc is None and tuple(np.shape(r)) != _expected_shape(fn, p.shape, axis)
     evs = []
     nl, n = li.shape
     for k in range(nl):
-        ev = {"ev": "red", "fn": fn, "form": rc["form"], "im": bool(p.imaginary),
+        ev = {"ev": "red", "fn": fn, "form": form + ("-axis-positional" if axpos else ""), "im": bool(p.imaginary),
               "arr": [{"i": exact.rat(float(li[k, j])), "f": exact.rat(float(lf[k, j]))} for j in range(n)]}
         if exc is not None:
             ev["exc"] = exc
+        elif badshape:
+            # not along the requested axis at all: TLC files "wrong-shape"
+            ev["badshape"] = [int(x) for x in np.shape(r)]
         elif fn in ("argmin", "argmax"):
             ev["idx"] = int(np.asarray(r).reshape(-1)[k])
         elif fn == "argsort":
@@ -450,6 +466,63 @@ def run_red(rc):
             else:
                 ev["out"] = []
         evs.append(ev)
+    return evs
+
+
+def run_red(rc):
+    """rc = {"fn", "form": method|numpy, "ph": array phase, "axis": None|int, "axpos": bool}"""
+    return red_events(make_phase(rc["ph"]), rc["fn"], rc["form"], rc.get("axis"), bool(rc.get("axpos")))
+
+
+def _view_of(p, vw):
+    """a view sharing p's memory (public indexing / reshaping only)"""
+    k = vw["kind"]
+    if k == "head":
+        return real(lambda: p[:vw["n"]])
+    if k == "tail":
+        return real(lambda: p[vw["n"]:])
+    if k == "step":
+        return real(lambda: p[::2])
+    if k == "flat":
+        return real(lambda: p.reshape(-1)[vw["a"]:vw["b"]])
+    if k == "ravel":
+        return real(lambda: p.ravel())
+    if k == "T":
+        return real(lambda: p.T)
+    if k == "row":
+        return real(lambda: p[vw["n"] % p.shape[0]])
+    if k == "col":
+        return real(lambda: p[..., vw["n"] % p.shape[-1]])
+    raise ValueError("unknown view " + k)
+
+
+def run_hist(rc):
+    """Same-object history: rc = {"ph": array phase, "steps": [...]}, steps
+      {"do": "read", "what": value|cycle|int|frac}           public read-only access
+      {"do": "red", "fn", "form", "axis", "axpos"}           reduction, judged on the values held now
+      {"do": "cmp", "op", "form", "ot"}                      comparison with another operand, judged likewise
+      {"do": "upd", "view": {...}, "op": add|sub, "ot": operand}   in-place update through a view of p
+    The events of all red / cmp steps are returned in order."""
+    p = make_phase(rc["ph"])
+    evs = []
+    for st in rc["steps"]:
+        do = st["do"]
+        if do == "read":
+            real(lambda: getattr(p, st["what"]))
+        elif do == "red":
+            evs += red_events(p, st["fn"], st["form"], st.get("axis"), bool(st.get("axpos")))
+        elif do == "cmp":
+            evs += cmp_events(phase_operand(p), make_other(st["ot"]), st["op"], "po", st.get("form"))
+        elif do == "upd":
+            view = _view_of(p, st["view"])
+            if np.size(view) and not np.shares_memory(view.view(np.ndarray), p.view(np.ndarray)):
+                raise AssertionError("harness: %r is not a view" % (st["view"],))
+            o = make_other(st["ot"])
+            real(IOPS[st["op"]], view, o.obj)
+        else:
+            raise ValueError("unknown step " + do)
+    for ev in evs:
+        ev["hist"] = True
     return evs
 
 
@@ -522,7 +595,7 @@ def run_roundtrip(rc):
     return [ev]
 
 
-RUNNERS = {"arith": run_arith, "trig": run_trig, "cmp": run_cmp, "red": run_red,
+RUNNERS = {"arith": run_arith, "trig": run_trig, "cmp": run_cmp, "red": run_red, "hist": run_hist,
            "from_string": run_from_string, "to_string": run_to_string, "roundtrip": run_roundtrip}
 
 
@@ -605,7 +678,7 @@ def violation_key(ev, clauses):
     if k == "cmp":
         return "cmp:%s[%s%s]:%s:%s:%s" % (ev["op"], _flag(ev["l"]), _flag(ev["r"]), ev["other"], ev["ord"], c)
     if k == "red":
-        return "%s:%s:%s" % (ev["fn"], ev["form"], c)
+        return "%s:%s%s:%s" % (ev["fn"], ev["form"], "/after-in-place-update-through-a-view" if ev.get("hist") else "", c)
     if k == "from_string":
         # coarse class (imaginary?, decimal point present?); the exact spelling class is in the description
         cl = string_class(bytes(ev["s"]).decode()).split("+")
